@@ -18,6 +18,11 @@ PROP = {
         "Frp.C10.register_close_roundtrip", "Frp.C10.reregister_after_close", "Frp.C10.retry_after_failure",
         "Frp.C10.sessionEnd_spec", "Frp.C10.sessionEnd_frees_names",
         "Frp.C10.port_released_on_close", "Frp.C10.port_kept_on_failure",
+        # concurrent registrations of several sessions, quota counter (Frp/Model/RegSteps.lean)
+        "Frp.C10.Conc.inv_reachable", "Frp.C10.Conc.quota_exact_idle", "Frp.C10.Conc.begin_refused_unchanged",
+        "Frp.C10.Conc.step_failure_releases", "Frp.C10.Conc.run_conflict_restores", "Frp.C10.Conc.close_spec",
+        "Frp.C10.Conc.sessionEnd_spec", "Frp.C10.Conc.retry_succeeds", "Frp.C10.Conc.quiescent_clean",
+        "Frp.C10.Conc.accounted_sound",
     ],
     "engines": [
         {"name": "release", "quick_n": 6000, "thorough_n": 30000, "thorough_seeds": 5,
@@ -26,32 +31,51 @@ PROP = {
         {"name": "ports", "quick_n": 2000, "thorough_n": 10000, "thorough_seeds": 3,
          "nontrivial": lambda tok, res: tok[0] == "reg",
          "result_class": lambda r: "view" if r.startswith("tcp[") else r.split(":")[0]},
+        {"name": "regrace", "quick_n": 6000, "thorough_n": 30000, "thorough_seeds": 5,
+         "nontrivial": lambda tok, res: (tok[0] in ("begin", "step") and res not in ("noflight", "busy"))
+         or (tok[0] == "view" and res != "tcp[]udp[]http[]visitor[]names[]quota[1=0,2=0,3=0]"),
+         "result_class": lambda r: "view" if r.startswith("tcp[") else r[:14]},
     ],
     "rule": "release engine: generated histories of register (http with several domains x locations, https, "
             "tcpmux, stcp, sudp, xtcp; duplicate and conflicting routes so that registrations fail at the 1st, "
             "2nd, ... claim; duplicate names) / close (own and foreign session) / session end (control "
             "connection dropped, waits for Control.worker) through the real Control on a hand-assembled "
             "ResourceController; `view` dumps all route tables, visitor and NAT-hole listener tables and the "
-            "proxy name table. ports engine: the same for tcp/udp ports (see C09). Non-trivial = every "
-            "registration attempt, session end and non-empty view; distinct = distinct (op line, result)",
+            "proxy name table. ports engine: the same for tcp/udp ports (see C09). regrace engine: registrations of "
+            "3 sessions run CONCURRENTLY through the real Control.RegisterProxy (tcp/udp on explicit ports, http, "
+            "stcp; MaxPortsPerClient 0..3), parked at the gates reg.checked / reg.ran and released one section "
+            "at a time in generated interleavings (free mix; name races: 2..3 sessions register the same name at "
+            "once, then the owners close and the registrations are re-submitted verbatim), plus close / session "
+            "end; every failure step is hit (quota, exists, conflict inside Run, name taken at Add); `view` dumps "
+            "port tables, routes, visitor listeners, name table with owners and every session's quota counter "
+            "(Control.portsUsedNum); each answer is also judged on a record built from the implementation's own "
+            "answers (tables and counters = what the record accounts for; every refusal justified by it). "
+            "Non-trivial = every registration attempt / section, session end and non-empty view; distinct = "
+            "distinct (op line, result)",
     "trusted": COMMON_TRUST + [
         "models Frp/Model/Release.lean and Frp/Model/Ports.lean written by hand; tied by the release and ports engines",
         "read-only dump hooks (tag verif): vhost.Routers/Muxer.VerifDump, visitor.Manager.VerifNames, "
         "proxy.Manager.VerifNames, nathole.Controller.VerifClients, ports.Manager.VerifDump",
+        "model Frp/Model/RegSteps.lean written by hand; tied by the regrace engine through the gates reg.checked / "
+        "reg.ran (verifhook, tag verif) and proxy.Manager.VerifDump; Control.portsUsedNum is read through reflection",
     ],
     "assumptions": [
         "goroutine / file-descriptor footprint over repeated cycles is not measured by this check (runtime, not logic)",
         "group membership release is covered by C13's model; pooled work connections by C11's; idle backend "
         "connections of the HTTP transport by C02's; wrapped transports (close graph) by C01's",
         "registration and closure of one session are sequential (Control handles its messages one at a time); "
-        "cross-session name races (Exist | Add) are modelled by C12",
+        "registrations of DIFFERENT sessions interleave section by section (quota+Exist | Run | Add): the "
+        "cross-session name race is inside this check; session end while the session's own RegisterProxy is "
+        "still running is C12's",
+        "regrace: ports are requested explicitly and nobody else binds them (the port manager with random "
+        "ports and foreign sockets is the ports engine's)",
     ],
 }
 
 META = {
-    "engine": "lean+harness(release, ports)",
+    "engine": "lean+harness(release, ports, regrace)",
     "design_ref": "DESIGN.md §6 C10",
     "technique": "Lean 4 invariant + exact-state theorems (register∘close = id; failed registration = id; session end = filter) over all histories + differential correspondence with the real Control / ResourceController tables",
-    "text": "Proof: in the model of the server's exclusive-key tables (http/https/tcpmux routes, visitor and NAT-hole listeners, proxy names) and of the port manager, for every reachable state: a registration that conflicts at any claim leaves the state exactly as before; explicit close removes exactly the closing proxy's keys and only for the owning session; register followed by close is the identity on the whole state (no table growth, identical re-registration succeeds on any session); session end removes exactly the keys and names of that session's proxies and nothing of other sessions; ports are free immediately after close and all accounting is unchanged by a failed registration (C09 theorems). Partial: runtime footprint (goroutines, descriptors) and the resources modelled by C01/C02/C11/C13 are outside this check. Tie: 6000+2000 generated ops per quick run on the real code with full table dumps.",
-    "note": "Trusted: Lean kernel; hand-written models; release/ports engines and the verif dump hooks. Not covered here: goroutine/fd footprint, group membership (C13), pooled work connections (C11), idle HTTP backend connections (C02), wrapper close graphs (C01).",
+    "text": "Proof: in the model of the server's exclusive-key tables (http/https/tcpmux routes, visitor and NAT-hole listeners, proxy names) and of the port manager, for every reachable state: a registration that conflicts at any claim leaves the state exactly as before; explicit close removes exactly the closing proxy's keys and only for the owning session; register followed by close is the identity on the whole state (no table growth, identical re-registration succeeds on any session); session end removes exactly the keys and names of that session's proxies and nothing of other sessions; ports are free immediately after close and all accounting is unchanged by a failed registration (C09 theorems). For registrations of several sessions running concurrently (small-step model: quota charge + Exist | Run | Add, every interleaving by induction over op lists): tables stay consistent and every session's quota counter equals the ports of what it owns plus its registration in flight; a registration failing at Run or at Add (name taken concurrently) leaves no key, no name and no quota charge behind and touches no other holder or counter; an immediately refused one changes nothing; close and session end give back exactly the proxy's / session's keys, names and ports; the identical registration submitted afterwards goes through all sections whenever name and keys are free and the ports fit on top of what the session really owns; with no proxy and no registration left all tables are empty and all counters 0. Partial: runtime footprint (goroutines, descriptors) and the resources modelled by C01/C02/C11/C13 are outside this check. Tie: 6000+2000+6000 generated ops per quick run on the real code with full table (and quota counter) dumps.",
+    "note": "Trusted: Lean kernel; hand-written models; release/ports/regrace engines, the verif dump hooks and the reg.checked/reg.ran gates. Not covered here: goroutine/fd footprint, group membership (C13), pooled work connections (C11), idle HTTP backend connections (C02), wrapper close graphs (C01).",
 }
